@@ -403,13 +403,157 @@ Proof.
     + field. repeat split; try lra; nra.
 Qed.
 
-Lemma corner_jacobian i j U (x : arr R) : i <> j -> x j < 0 ->
+(* off the vertical axis atan2 has a second closed form, valid across the surface v = 0 and above it:
+   atan2 y x = +-pi/2 - atan (x / y) for y > 0 / y < 0 *)
+Lemma atan_inv_neg z : z < 0 -> atan (/ z) = - PI / 2 - atan z.
+Proof.
+  intros Hz. replace (/ z) with (- / (- z)) by (field; lra).
+  rewrite atan_opp, atan_inv by lra. rewrite atan_opp. lra.
+Qed.
+
+Lemma Ratan2_pos_y y x : 0 < y -> Ratan2 y x = PI / 2 - atan (x / y).
+Proof.
+  intros Hy. unfold Ratan2.
+  assert (Hiy : 0 < / y) by (apply Rinv_0_lt_compat; exact Hy).
+  destruct (Rlt_dec 0 x) as [Hx|Hx]; [|destruct (Rlt_dec x 0) as [Hx'|Hx']].
+  - replace (y / x) with (/ (x / y)) by (field; split; lra).
+    apply atan_inv. unfold Rdiv. nra.
+  - destruct (Rle_dec 0 y) as [_|N]; [|lra].
+    replace (y / x) with (/ (x / y)) by (field; split; lra).
+    rewrite atan_inv_neg; [lra|]. unfold Rdiv. nra.
+  - assert (x = 0) by lra. subst x. destruct (Rlt_dec 0 y); [|lra].
+    unfold Rdiv. rewrite Rmult_0_l, atan_0. lra.
+Qed.
+
+Lemma Ratan2_neg_y y x : y < 0 -> Ratan2 y x = - PI / 2 - atan (x / y).
+Proof.
+  intros Hy. unfold Ratan2.
+  assert (Hiy : / y < 0) by (apply Rinv_lt_0_compat; exact Hy).
+  destruct (Rlt_dec 0 x) as [Hx|Hx]; [|destruct (Rlt_dec x 0) as [Hx'|Hx']].
+  - replace (y / x) with (/ (x / y)) by (field; split; lra).
+    apply atan_inv_neg. unfold Rdiv. nra.
+  - destruct (Rle_dec 0 y) as [N|_]; [lra|].
+    replace (y / x) with (/ (x / y)) by (field; split; lra).
+    rewrite atan_inv; [lra|]. unfold Rdiv. nra.
+  - assert (x = 0) by lra. subst x. destruct (Rlt_dec 0 y); [lra|]. destruct (Rlt_dec y 0); [|lra].
+    unfold Rdiv. rewrite Rmult_0_l, atan_0. lra.
+Qed.
+
+(* the same four partial derivatives at every point off the vertical axis h = 0 (any sign of v: on
+   the surface v = 0 and above it) *)
+Lemma corner_derivs_off_axis U h v : h <> 0 ->
+  is_derive (fun s => corner_uh U s v) h (corner_ghh U h v) /\
+  is_derive (fun s => corner_uh U h s) v (corner_ghv U h v) /\
+  is_derive (fun s => corner_uv U s v) h (corner_gvh U h v) /\
+  is_derive (fun s => corner_uv U h s) v (corner_gvv U h v).
+Proof.
+  intros Hh. pose proof PI_RGT_0 as Hpi.
+  assert (Hr : h * h + v * v <> 0) by nra.
+  unfold corner_uh, corner_uv, corner_ghh, corner_ghv, corner_gvh, corner_gvv, corner_pref.
+  destruct (Rlt_dec 0 h) as [Hp|Hn].
+  - (* h > 0 *)
+    split; [|split; [|split]].
+    + apply is_derive_ext_loc with (f := fun s => 2 * U / PI * (PI / 2 - atan (- v / s) + s * v / (s * s + v * v))).
+      { exists (mkposreal h Hp). intros s Hs.
+        unfold ball in Hs; cbn in Hs. unfold AbsRing_ball, abs, minus, plus, opp in Hs; cbn in Hs.
+        assert (0 < s). { apply Rabs_def2 in Hs. lra. }
+        rewrite Ratan2_pos_y by lra. reflexivity. }
+      auto_derive.
+      * repeat split; try lra; nra.
+      * field. repeat split; try lra; nra.
+    + apply is_derive_ext with (f := fun s => 2 * U / PI * (PI / 2 - atan (- s / h) + h * s / (h * h + s * s))).
+      { intros s. rewrite Ratan2_pos_y by lra. reflexivity. }
+      auto_derive.
+      * repeat split; try lra; nra.
+      * field. repeat split; try lra; nra.
+    + auto_derive.
+      * repeat split; try lra; nra.
+      * field. repeat split; try lra; nra.
+    + auto_derive.
+      * repeat split; try lra; nra.
+      * field. repeat split; try lra; nra.
+  - (* h < 0 *)
+    assert (Hneg : h < 0) by lra. assert (Hmh : 0 < - h) by lra.
+    split; [|split; [|split]].
+    + apply is_derive_ext_loc with (f := fun s => 2 * U / PI * (- PI / 2 - atan (- v / s) + s * v / (s * s + v * v))).
+      { exists (mkposreal (- h) Hmh). intros s Hs.
+        unfold ball in Hs; cbn in Hs. unfold AbsRing_ball, abs, minus, plus, opp in Hs; cbn in Hs.
+        assert (s < 0). { apply Rabs_def2 in Hs. lra. }
+        rewrite Ratan2_neg_y by lra. reflexivity. }
+      auto_derive.
+      * repeat split; try lra; nra.
+      * field. repeat split; try lra; nra.
+    + apply is_derive_ext with (f := fun s => 2 * U / PI * (- PI / 2 - atan (- s / h) + h * s / (h * h + s * s))).
+      { intros s. rewrite Ratan2_neg_y by lra. reflexivity. }
+      auto_derive.
+      * repeat split; try lra; nra.
+      * field. repeat split; try lra; nra.
+    + auto_derive.
+      * repeat split; try lra; nra.
+      * field. repeat split; try lra; nra.
+    + auto_derive.
+      * repeat split; try lra; nra.
+      * field. repeat split; try lra; nra.
+Qed.
+
+(* the differentiability domain: everything but the half line { h = 0, v >= 0 } (on which atan2 jumps
+   by 2 pi, resp. the hole of the source at the corner itself) *)
+Definition corner_smooth (h v : R) : Prop := v < 0 \/ h <> 0.
+
+(* the physical domain of the flow (at or below the surface, outside the 1e-15 hole) lies inside it *)
+Lemma corner_domain_smooth h v : v <= 0 -> ~ corner_hole h v -> corner_smooth h v.
+Proof.
+  intros Hv Hn. unfold corner_smooth. destruct (Rlt_dec v 0) as [|Hv0]; [left; assumption|right].
+  intros ->. apply Hn. assert (v = 0) by lra. subst v. pose proof cut15_pos.
+  split; rewrite Rabs_R0; assumption.
+Qed.
+
+(* the exclusion is necessary: above the surface (v > 0) the velocity callable jumps by more than
+   3 U across the vertical axis (atan2's branch cut), so no Jacobian exists there *)
+Lemma corner_cut_jump U v h : 0 < v -> 0 < U -> h < 0 -> corner_uh U 0 v - corner_uh U h v > 3 * U.
+Proof.
+  intros Hv HU Hh. pose proof PI_RGT_0 as Hpi. unfold corner_uh.
+  rewrite (Ratan2_neg_y h (- v) Hh).
+  assert (E0 : Ratan2 0 (- v) = PI).
+  { unfold Ratan2. destruct (Rlt_dec 0 (- v)); [lra|]. destruct (Rlt_dec (- v) 0); [|lra].
+    destruct (Rle_dec 0 0); [|lra]. unfold Rdiv. rewrite Rmult_0_l, atan_0. lra. }
+  rewrite E0. replace (0 * v / (0 * 0 + v * v)) with 0 by (field; lra).
+  assert (Ha : 0 < atan (- v / h)).
+  { rewrite <- atan_0. apply atan_increasing. unfold Rdiv.
+    assert (/ h < 0) by (apply Rinv_lt_0_compat; exact Hh). nra. }
+  assert (Hq : h * v / (h * h + v * v) < 0).
+  { unfold Rdiv. assert (0 < / (h * h + v * v)) by (apply Rinv_0_lt_compat; nra).
+    assert (h * v < 0) by nra. nra. }
+  assert (Hk : 0 < 2 * U / PI) by (apply Rdiv_lt_0_compat; lra).
+  replace (3 * U) with (2 * U / PI * (3 * PI / 2)) by (field; lra).
+  rewrite <- Rmult_minus_distr_l. apply Rmult_lt_compat_l; [exact Hk|]. lra.
+Qed.
+
+Lemma corner_cut_not_derivable U v : 0 < v -> 0 < U ->
+  ~ exists g, is_derive (fun s => corner_uh U s v) 0 g.
+Proof.
+  intros Hv HU [g Hg].
+  assert (Hc : continuous (fun s => corner_uh U s v) 0).
+  { apply (ex_derive_continuous (K := R_AbsRing) (V := R_NormedModule)). exists g. exact Hg. }
+  pose proof (proj1 (filterlim_locally (fun s => corner_uh U s v) (corner_uh U 0 v)) Hc (mkposreal U HU)) as [d Hd].
+  specialize (Hd (- (d / 2))).
+  assert (Hb : ball 0 d (- (d / 2))).
+  { unfold ball; cbn. unfold AbsRing_ball, abs, minus, plus, opp; cbn. destruct d as [d Hdp]; cbn.
+    rewrite Rabs_left by lra. lra. }
+  specialize (Hd Hb). unfold ball in Hd; cbn in Hd. unfold AbsRing_ball, abs, minus, plus, opp in Hd; cbn in Hd.
+  assert (Hneg : - (d / 2) < 0) by (destruct d as [d Hdp]; cbn; lra).
+  pose proof (corner_cut_jump U v (- (d / 2)) Hv HU Hneg) as Hj.
+  apply Rabs_def2 in Hd. lra.
+Qed.
+
+Lemma corner_jacobian i j U (x : arr R) : i <> j -> corner_smooth (x i) (x j) ->
   forall k m, is_derive (fun s => corner_field i j U (upd x m s) k) (x m)
     (planar_mat i j (corner_ghh U (x i) (x j)) (corner_ghv U (x i) (x j))
                     (corner_gvh U (x i) (x j)) (corner_gvv U (x i) (x j)) k m).
 Proof.
-  intros Hij Hv. destruct (corner_derivs U (x i) (x j) Hv) as (A & B & C & D).
-  apply planar_derive; assumption.
+  intros Hij [Hv|Hh].
+  - destruct (corner_derivs U (x i) (x j) Hv) as (A & B & C & D). apply planar_derive; assumption.
+  - destruct (corner_derivs_off_axis U (x i) (x j) Hh) as (A & B & C & D). apply planar_derive; assumption.
 Qed.
 
 Ltac corner_unfold :=
@@ -468,7 +612,7 @@ Qed.
 (* the full statement for the corner flow *)
 Theorem corner_grad_is_jacobian_proof (hl vl : Z) (U t : R) (x : arr R) i j :
   letter_ok hl -> letter_ok vl -> @wrapper_indices NumR 2 hl vl [U] = Ok (i, j) ->
-  ~ corner_hole (x i) (x j) -> x j < 0 ->
+  ~ corner_hole (x i) (x j) -> corner_smooth (x i) (x j) ->
   exists a G, @wrapper_velocity NumR 2 hl vl [U] t x = Ok a /\
               @wrapper_gradient NumR 2 hl vl [U] t x = Ok G /\
     (forall k, (k < 3)%nat -> a k = corner_field i j U x k) /\
